@@ -187,6 +187,24 @@ def arr_setitem(I, arr, idx, v, env):
         val = zreal(I.unC(c)) if (arr.ctype and is_float_ctype(arr.ctype)) else zint(I.unC(c))
         arr.arr = z3.K(z3.IntSort(), val)
         return
+    if len(idx) == 1 and isinstance(idx[0], SliceObj) and len(arr.shape) == 1 and idx[0].step is None \
+            and not isinstance(v, (SymArr, PList)):
+        # a[lo:hi] = scalar  (slice bounds are clipped to the array, as for Python slices and
+        # Cython memoryview slices; negative bounds count from the end)
+        n = zint(arr.shape[0])
+
+        def norm(b, default):
+            if b is None:
+                return default
+            b = zint(I.unC(b))
+            b = z3.If(b < 0, b + n, b)
+            return z3.If(b < 0, 0, z3.If(b > n, n, b))
+        lo, hi = norm(idx[0].start, z3.IntVal(0)), norm(idx[0].stop, n)
+        c = I.convert(arr.ctype, v, f"store to {arr.name}") if arr.ctype else v
+        val = zreal(I.unC(c)) if (arr.ctype and is_float_ctype(arr.ctype)) else zint(I.unC(c))
+        q = z3.Int("q!fill")
+        arr.arr = z3.Lambda([q], z3.If(z3.And(q >= lo, q < hi), val, z3.Select(arr.arr, q)))
+        return
     raise Unsupported(f"array item store {idx!r}")
 
 
